@@ -2,8 +2,8 @@
    the history's hierarchy (C02/C03 for all consistent inputs, not only explicit ones).
    Part 1: what the elements leave in the open group's frame. *)
 From Coq Require Import List Arith Bool String Lia Permutation.
-From PyHam Require Import Tax Ortho Loader Mapper Preds Hist Spell.
-From PyHam.proofs Require Import TaxFacts MapperFacts ForestFacts ClusterFacts LoaderFacts ExplicitFacts ChainFacts CladeFacts.
+From PyHam Require Import Tax Ortho Loader Mapper Preds Filter Hist Spell.
+From PyHam.proofs Require Import TaxFacts MapperFacts ForestFacts ClusterFacts LoaderFacts RegFacts LoftFacts ExplicitFacts ChainFacts CladeFacts.
 Import ListNotations.
 Local Open Scope string_scope.
 Local Open Scope list_scope.
@@ -57,12 +57,13 @@ Qed.
 Definition flags_lt (ks : list kid) (n : nat) : Prop := forall k c, In (Some k, c) ks -> k < n.
 
 Definition MK (t : stree) (genes : list (string * taxon)) (h : hist) (its : list item) (l : taxon) : Prop :=
-  forall pg fr s, dups_dom s ->
+  forall pg fr s, dups_dom s -> NoDup (flat_map refs_of its) -> lfresh s (flat_map refs_of its) ->
   exists y fr' s', body_go t genes pg its fr s = Ok (fr', s') /\ f_kids fr' = f_kids fr ++ [(pg, y)] /\
     rep t h y /\ htax y = l /\ ext s s' /\ dups_dom s'.
 
 Definition MD (t : stree) (genes : list (string * taxon)) (h : hist) (its : list item) : Prop :=
   forall fr s, dups_dom s -> flags_lt (f_kids fr) (s_dup s) ->
+    NoDup (flat_map refs_of its) -> lfresh s (flat_map refs_of its) ->
   exists ys a cs fr' s', body_go t genes None its fr s = Ok (fr', s') /\
     f_kids fr' = f_kids fr ++ map (pair (Some (s_dup s))) ys /\
     below h (XH a [cs]) /\ 2 <= List.length cs /\ Forall2 (rep t) cs ys /\ levels_ok (lin_tax cs) (map htax ys) /\
@@ -73,6 +74,28 @@ Definition member_claim t genes (h : hist) (its : list item) (lv : option taxon)
 
 Definition Pmember (t : stree) (genes : list (string * taxon)) (h : hist) : Prop :=
   WFh t genes h -> forall mp its lv, sp_member t mp h its lv -> member_claim t genes h its lv.
+
+(* ---------- LOFT ids: what evaluating elements does to them ---------- *)
+Lemma annot_refs it : is_annot it -> refs_of it = [].
+Proof. destruct it; simpl; try contradiction; reflexivity. Qed.
+
+Lemma body_go_lgrow t genes pg body fr s fr' s' :
+  body_go t genes pg body fr s = Ok (fr', s') -> lgrow s s' (flat_map refs_of body).
+Proof.
+  intros H. eapply (body_lgrow t genes pg body fr s fr' s'); [|exact H].
+  apply Forall_forall. intros x _. apply eval_item_lgrow.
+Qed.
+
+Lemma set_loft_spec g l s : assoc g (s_lofts s) = None ->
+  exists s', set_loft g l s = Ok (tt, s') /\ s_oid s' = s_oid s /\ s_dup s' = s_dup s /\ s_dups s' = s_dups s.
+Proof. intros H. unfold set_loft. rewrite H. eexists. repeat split. Qed.
+
+Lemma loft_step g loft s : lfresh s [g] ->
+  exists s', (match loft with Some l => set_loft g l | None => ret tt end) s = Ok (tt, s') /\
+    s_oid s' = s_oid s /\ s_dup s' = s_dup s /\ s_dups s' = s_dups s.
+Proof.
+  intros Hf. destruct loft as [l|]; [apply set_loft_spec; apply Hf; left; reflexivity|exists s; repeat split].
+Qed.
 
 (* ---------- set_MRCA on members that lie in one clade ---------- *)
 Lemma dedup_nonempty l : l <> [] -> dedup_tax l <> [].
@@ -141,6 +164,9 @@ Proof.
     + intros k' Hk'. rewrite K2 by exact Hk'. now rewrite DS1, DS0.
 Qed.
 
+Lemma nodup_app_r' {X} (a b : list X) : NoDup (a ++ b) -> NoDup b.
+Proof. induction a as [|x r IH]; simpl; intros H; [exact H|]. inversion H; auto. Qed.
+
 (* ---------- the copies of one duplication, in any bracketing ---------- *)
 Lemma rep_clade t genes c y X : WFh t genes c -> xtax c = X -> rep t c y -> in_clade X (htax y).
 Proof.
@@ -159,33 +185,38 @@ Lemma units_eval t genes X k cs body lvls :
   Forall (copy_IH t genes) cs -> Forall (fun c => WFh t genes c /\ xtax c = X) cs -> X <> [] ->
   forall fr s d, dups_dom s -> dup_lookup k (s_dups s) = Some d ->
     Forall (fun x => in_clade X (htax x)) (members_of k (f_kids fr)) ->
+    NoDup (flat_map refs_of body) -> lfresh s (flat_map refs_of body) ->
   exists ys fr' s' d', body_go t genes (Some k) body fr s = Ok (fr', s') /\
     f_kids fr' = f_kids fr ++ map (pair (Some k)) ys /\ Forall2 (rep t) cs ys /\ map htax ys = lvls /\
     dups_dom s' /\ dup_lookup k (s_dups s') = Some d' /\ s_oid s <= s_oid s' /\ s_dup s <= s_dup s' /\
     (forall k', k' < s_dup s -> k' <> k -> dup_lookup k' (s_dups s') = dup_lookup k' (s_dups s)).
 Proof.
   intros Hsp. induction Hsp as [|it cs body lvls Ha Hsp IH|c cr its l body lvls Hm Hsp IH|og cs1 cs2 inner body lv1 lv2 Hne Hsp1 IH1 Hsp2 IH2];
-    intros HIH Hwf HX fr s d Hdom Hd Hcl.
+    intros HIH Hwf HX fr s d Hdom Hd Hcl Hnd Hfr.
   - exists [], fr, s, d. simpl. rewrite app_nil_r. split; [reflexivity|]. split; [reflexivity|]. split; [constructor|].
     split; [reflexivity|]. split; [exact Hdom|]. split; [exact Hd|]. split; [lia|]. split; [lia|]. auto.
-  - destruct (annot_eval t genes it (Some k) fr s Ha) as (fr1 & E1 & K1).
-    destruct (IH HIH Hwf HX fr1 s d Hdom Hd) as (ys & fr' & s' & d' & E & Hk & R); [rewrite K1; exact Hcl|].
+  - cbn [flat_map] in Hnd, Hfr. rewrite (annot_refs it Ha) in Hnd, Hfr. cbn [app] in Hnd, Hfr.
+    destruct (annot_eval t genes it (Some k) fr s Ha) as (fr1 & E1 & K1).
+    destruct (IH HIH Hwf HX fr1 s d Hdom Hd) as (ys & fr' & s' & d' & E & Hk & R); [rewrite K1; exact Hcl|exact Hnd|exact Hfr|].
     exists ys, fr', s', d'. rewrite body_go_cons, E1. split; [exact E|]. rewrite <- K1. split; [exact Hk|exact R].
   - inversion HIH as [|? ? Hc HIHr]; subst. inversion Hwf as [|? ? [Hwc Hxc] Hwfr]; subst.
-    destruct (Hc its l Hm (Some k) fr s Hdom) as (y & fr1 & s1 & E1 & K1 & R1 & L1 & X1 & D1).
+    rewrite flat_map_app in Hnd, Hfr. destruct (lfresh_app _ _ _ Hfr) as [Hfr1 Hfr2].
+    destruct (Hc its l Hm (Some k) fr s Hdom (nodup_app_l _ _ Hnd) Hfr1) as (y & fr1 & s1 & E1 & K1 & R1 & L1 & X1 & D1).
+    assert (Hfr1' : lfresh s1 (flat_map refs_of body)) by (eapply lfresh_step; [exact Hnd|exact Hfr|eapply body_go_lgrow; eauto]).
     assert (Hklt : k < s_dup s) by (apply Hdom; congruence).
     assert (Hd1 : dup_lookup k (s_dups s1) = Some d) by (destruct X1 as (_ & _ & C1); rewrite C1; auto).
     assert (Hcl1 : Forall (fun x => in_clade (xtax c) (htax x)) (members_of k (f_kids fr1))).
     { rewrite K1, members_of_app. apply Forall_app. split; [exact Hcl|].
       change [(Some k, y)] with (map (pair (Some k)) [y]). rewrite members_of_flag. constructor; [|constructor].
       eapply rep_clade; eauto. }
-    destruct (IH HIHr Hwfr HX fr1 s1 d D1 Hd1 Hcl1) as (ys & fr' & s' & d' & E & Hk & R & Lv & D' & Hd' & O' & Du' & U').
+    destruct (IH HIHr Hwfr HX fr1 s1 d D1 Hd1 Hcl1 (nodup_app_r' _ _ Hnd) Hfr1') as (ys & fr' & s' & d' & E & Hk & R & Lv & D' & Hd' & O' & Du' & U').
     exists (y :: ys), fr', s', d'. rewrite body_go_app, E1. split; [exact E|].
     split; [rewrite Hk, K1, <- app_assoc; reflexivity|]. split; [constructor; auto|]. split; [simpl; congruence|].
     split; [exact D'|]. split; [exact Hd'|]. destruct X1 as (A1 & B1 & C1). split; [lia|]. split; [lia|].
     intros k' Hk' Hne'. rewrite U' by (auto; lia). apply C1. exact Hk'.
   - apply Forall_app in HIH as [HIH1 HIH2]. apply Forall_app in Hwf as [Hwf1 Hwf2].
-    destruct (IH1 HIH1 Hwf1 HX fr s d Hdom Hd Hcl) as (ys1 & fr1 & s1 & d1 & E1 & K1 & R1 & L1 & D1 & Hd1 & O1 & Du1 & U1).
+    cbn [flat_map refs_of] in Hnd, Hfr. destruct (lfresh_app _ _ _ Hfr) as [Hfr1 Hfr2].
+    destruct (IH1 HIH1 Hwf1 HX fr s d Hdom Hd Hcl (nodup_app_l _ _ Hnd) Hfr1) as (ys1 & fr1 & s1 & d1 & E1 & K1 & R1 & L1 & D1 & Hd1 & O1 & Du1 & U1).
     assert (Hys1 : ys1 <> []).
     { intros ->. apply Forall2_length' in R1. destruct cs1; [contradiction|discriminate]. }
     assert (Hcl1 : Forall (fun x => in_clade X (htax x)) (members_of k (f_kids fr1))).
@@ -196,7 +227,9 @@ Proof.
     assert (Hmne : members_of k (f_kids fr1) <> []).
     { rewrite K1, members_of_app, members_of_flag. destruct (members_of k (f_kids fr)); destruct ys1; try discriminate. contradiction. }
     destruct (set_mrca_clade k _ X s1 d1 Hmne Hcl1 HX Hd1 D1) as (s2 & d2 & E2 & O2 & Du2 & D2 & Hd2 & U2).
-    destruct (IH2 HIH2 Hwf2 HX fr1 s2 d2 D2 Hd2 Hcl1) as (ys2 & fr' & s' & d' & E & Hk & R & Lv & D' & Hd' & O' & Du' & U').
+    assert (Hfr2' : lfresh s2 (flat_map refs_of body)).
+    { eapply lfresh_same; [eapply set_mrca_lsame; exact E2|]. eapply lfresh_step; [exact Hnd|exact Hfr|eapply body_go_lgrow; eauto]. }
+    destruct (IH2 HIH2 Hwf2 HX fr1 s2 d2 D2 Hd2 Hcl1 (nodup_app_r' _ _ Hnd) Hfr2') as (ys2 & fr' & s' & d' & E & Hk & R & Lv & D' & Hd' & O' & Du' & U').
     exists (ys1 ++ ys2), fr', s', d'. split; [|split; [|split; [|split; [|split; [|split; [|split; [|split]]]]]]].
     + rewrite body_go_cons. cbn [eval_item]. unfold bind at 1. unfold ret at 1.
       fold (body_go t genes (Some k)). unfold bind at 1. rewrite E1. unfold bind at 1. rewrite E2. exact E.
@@ -223,17 +256,19 @@ Lemma nest_eval t genes X b p cs body lvls og :
   sp_units t cs body lvls -> levels_ok X lvls -> cs <> [] ->
   Forall (copy_IH t genes) cs -> Forall (fun c => WFh t genes c /\ xtax c = X) cs -> X = b :: p ->
   forall fr s, dups_dom s -> flags_lt (f_kids fr) (s_dup s) ->
+    NoDup (flat_map refs_of body) -> lfresh s (flat_map refs_of body) ->
   exists ys fr' s', eval_item t genes (IPG og body) None fr s = Ok (fr', s') /\
     f_kids fr' = f_kids fr ++ map (pair (Some (s_dup s))) ys /\ Forall2 (rep t) cs ys /\ map htax ys = lvls /\
     mrca_is s' (s_dup s) p /\ s_dup s < s_dup s' /\ ext s s' /\ dups_dom s'.
 Proof.
-  intros Hsp Hlv Hne HIH Hwf HX fr s Hdom Hfl.
+  intros Hsp Hlv Hne HIH Hwf HX fr s Hdom Hfl Hnd Hfr.
   destruct (fresh_dup_spec og s Hdom) as (s1 & E1 & D1 & O1 & X1 & Hdom1 & L1).
+  assert (Hfr1 : lfresh s1 (flat_map refs_of body)) by (eapply lfresh_same; [eapply fresh_dup_lsame; exact E1|exact Hfr]).
   set (k := s_dup s) in *.
   assert (HXne : X <> []) by (rewrite HX; discriminate).
   assert (Hcl0 : Forall (fun x => in_clade X (htax x)) (members_of k (f_kids fr))).
   { rewrite members_of_fresh by exact Hfl. constructor. }
-  destruct (units_eval t genes X k cs body lvls Hsp HIH Hwf HXne fr s1 _ Hdom1 L1 Hcl0)
+  destruct (units_eval t genes X k cs body lvls Hsp HIH Hwf HXne fr s1 _ Hdom1 L1 Hcl0 Hnd Hfr1)
     as (ys & fr1 & s2 & d2 & E2 & K2 & R2 & Lv2 & D2 & Hd2 & O2 & Du2 & U2).
   assert (Hys : ys <> []).
   { intros ->. apply Forall2_length' in R2. destruct cs; [contradiction|discriminate]. }
@@ -285,34 +320,37 @@ Lemma body_eval t genes p sgl lins body :
   sp_body t sgl p lins body ->
   Forall (Forall (Pmember t genes)) lins -> Forall (lin_ok t genes p) lins ->
   forall gs0 fr s, f_kids fr = gkids gs0 -> gflags_lt gs0 (s_dup s) -> dups_dom s ->
+    NoDup (flat_map refs_of body) -> lfresh s (flat_map refs_of body) ->
   exists gs fr' s', body_go t genes None body fr s = Ok (fr', s') /\ f_kids fr' = gkids (gs0 ++ gs) /\
     Forall2 (pend t s' p) lins gs /\ ext s s' /\ dups_dom s' /\
     flags_from (s_dup s) gs /\ gflags_lt gs (s_dup s') /\ NoDup (gflags gs) /\
     (sgl = true -> Forall2 exact_kid lins gs).
 Proof.
   intros Hsp. induction Hsp as [sgl p|sgl p it lins body Ha Hsp IH|sgl p c lr its lv body Hm Hex Hsp IH|sgl p cs lr og pgbody lvls body H2 Hun Hlv Hsp IH];
-    intros HIH Hok gs0 fr s Hk Hlt Hdom.
+    intros HIH Hok gs0 fr s Hk Hlt Hdom Hnd Hfr.
   - exists [], fr, s. rewrite app_nil_r. split; [reflexivity|]. split; [exact Hk|]. split; [constructor|]. split; [apply ext_refl|].
     split; [exact Hdom|]. split; [intros k []|]. split; [intros k []|]. split; [constructor|]. intros _. constructor.
-  - destruct (annot_eval t genes it None fr s Ha) as (fr1 & E1 & K1).
-    destruct (IH HIH Hok gs0 fr1 s) as (gs & fr' & s' & E & R); [rewrite K1; exact Hk|exact Hlt|exact Hdom|].
+  - cbn [flat_map] in Hnd, Hfr. rewrite (annot_refs it Ha) in Hnd, Hfr. cbn [app] in Hnd, Hfr.
+    destruct (annot_eval t genes it None fr s Ha) as (fr1 & E1 & K1).
+    destruct (IH HIH Hok gs0 fr1 s) as (gs & fr' & s' & E & R); [rewrite K1; exact Hk|exact Hlt|exact Hdom|exact Hnd|exact Hfr|].
     exists gs, fr', s'. rewrite body_go_cons, E1. split; [exact E|exact R].
   - (* a plain-ortholog lineage *)
     inversion HIH as [|? ? HIHc HIHr]; subst. inversion Hok as [|? ? [_ Hokc] Hokr]; subst.
     inversion HIHc as [|? ? Pc _]; subst. inversion Hokc as [|? ? (Hwc & bc & Hxc & Hlc) _]; subst.
     pose proof (Pc Hwc true its lv Hm) as Hclaim.
+    rewrite flat_map_app in Hnd, Hfr. destruct (lfresh_app _ _ _ Hfr) as [Hfr1 Hfr2].
     assert (Hstep : exists g fr1 s1, body_go t genes None its fr s = Ok (fr1, s1) /\ f_kids fr1 = gkids (gs0 ++ [g]) /\
               pend t s1 p [c] g /\ ext s s1 /\ dups_dom s1 /\ flags_from (s_dup s) [g] /\ gflags_lt [g] (s_dup s1) /\
               NoDup (gflags [g]) /\ (sgl = true -> exact_kid [c] g)).
     { destruct lv as [l|]; cbn [member_claim] in Hclaim.
-      - destruct (Hclaim None fr s Hdom) as (y & fr1 & s1 & E1 & K1 & R1 & L1 & X1 & D1).
+      - destruct (Hclaim None fr s Hdom (nodup_app_l _ _ Hnd) Hfr1) as (y & fr1 & s1 & E1 & K1 & R1 & L1 & X1 & D1).
         exists (None, [y]), fr1, s1. split; [exact E1|]. split.
         { rewrite K1, Hk, gkids_app. unfold gkids at 3. simpl. reflexivity. }
         split; [constructor; exact R1|]. split; [exact X1|]. split; [exact D1|].
         split; [intros k []|]. split; [intros k []|]. split; [constructor|].
         intros Hs. exists y. split; [reflexivity|]. specialize (Hex Hs). inversion Hex. congruence.
-      - destruct (Hclaim fr s Hdom) as (ys & a & cs & fr1 & s1 & E1 & K1 & B1 & L2 & R1 & Lv1 & M1 & Lt1 & X1 & D1).
-        { rewrite Hk. apply flags_lt_gkids. exact Hlt. }
+      - destruct (Hclaim fr s Hdom) as (ys & a & cs & fr1 & s1 & E1 & K1 & B1 & L2 & R1 & Lv1 & M1 & Lt1 & X1 & D1);
+          [rewrite Hk; apply flags_lt_gkids; exact Hlt|exact (nodup_app_l _ _ Hnd)|exact Hfr1|].
         exists (Some (s_dup s), ys), fr1, s1. split; [exact E1|]. split.
         { rewrite K1, Hk, gkids_app. unfold gkids at 3. simpl. rewrite app_nil_r. reflexivity. }
         split; [eapply pend_sole; eauto|]. split; [exact X1|]. split; [exact D1|].
@@ -322,7 +360,8 @@ Proof.
     assert (Hlt1 : gflags_lt (gs0 ++ [g]) (s_dup s1)).
     { intros k Hin. rewrite gflags_app in Hin. apply in_app_or in Hin as [Hin|Hin]; [|apply G1; exact Hin].
       destruct X1 as (_ & B1 & _). specialize (Hlt k Hin). lia. }
-    destruct (IH HIHr Hokr (gs0 ++ [g]) fr1 s1 K1 Hlt1 D1) as (gs & fr' & s' & E & K & P & X' & D' & F' & G' & N' & Ex').
+    assert (Hfr1' : lfresh s1 (flat_map refs_of body)) by (eapply lfresh_step; [exact Hnd|exact Hfr|eapply body_go_lgrow; eauto]).
+    destruct (IH HIHr Hokr (gs0 ++ [g]) fr1 s1 K1 Hlt1 D1 (nodup_app_r' _ _ Hnd) Hfr1') as (gs & fr' & s' & E & K & P & X' & D' & F' & G' & N' & Ex').
     exists (g :: gs), fr', s'. split; [rewrite body_go_app, E1; exact E|].
     split; [rewrite K, <- app_assoc; reflexivity|].
     split; [constructor; [eapply pend_ext; eauto|exact P]|].
@@ -348,9 +387,12 @@ Proof.
     { rewrite Forall_forall in *. intros c Hc its l Hm. destruct (Hokc c Hc) as (Hw & _). apply (HIHc c Hc Hw false its (Some l) Hm). }
     assert (Hwfx : Forall (fun c => WFh t genes c /\ xtax c = lin_tax cs) cs).
     { rewrite Forall_forall in *. intros c Hc. destruct (Hokc c Hc) as (Hw & b' & Hx & Hl). split; [exact Hw|congruence]. }
+    cbn [flat_map refs_of] in Hnd, Hfr. destruct (lfresh_app _ _ _ Hfr) as [Hfr1 Hfr2].
     destruct (nest_eval t genes (lin_tax cs) b p cs pgbody lvls og Hun Hlv Hne Hcopy Hwfx HX fr s Hdom)
-      as (ys & fr1 & s1 & E1 & K1 & R1 & Lv1 & M1 & Lt1 & X1 & D1).
-    { rewrite Hk. apply flags_lt_gkids. exact Hlt. }
+      as (ys & fr1 & s1 & E1 & K1 & R1 & Lv1 & M1 & Lt1 & X1 & D1);
+      [rewrite Hk; apply flags_lt_gkids; exact Hlt|exact (nodup_app_l _ _ Hnd)|exact Hfr1|].
+    assert (Hfr1' : lfresh s1 (flat_map refs_of body)).
+    { eapply lfresh_step; [exact Hnd|exact Hfr|]. exact (eval_item_lgrow t genes (IPG og pgbody) None fr s fr1 s1 E1). }
     set (g := (Some (s_dup s), ys)).
     assert (K1' : f_kids fr1 = gkids (gs0 ++ [g])).
     { rewrite K1, Hk, gkids_app. unfold gkids at 3. simpl. rewrite app_nil_r. reflexivity. }
@@ -358,7 +400,7 @@ Proof.
     { intros k Hin. rewrite gflags_app in Hin. apply in_app_or in Hin as [Hin|Hin].
       - specialize (Hlt k Hin). lia.
       - destruct Hin as [<-|[]]. exact Lt1. }
-    destruct (IH HIHr Hokr (gs0 ++ [g]) fr1 s1 K1' Hlt1 D1) as (gs & fr' & s' & E & K & P & X' & D' & F' & G' & N' & Ex').
+    destruct (IH HIHr Hokr (gs0 ++ [g]) fr1 s1 K1' Hlt1 D1 (nodup_app_r' _ _ Hnd) Hfr1') as (gs & fr' & s' & E & K & P & X' & D' & F' & G' & N' & Ex').
     exists (g :: gs), fr', s'. split; [rewrite body_go_cons, E1; exact E|].
     split; [rewrite K, <- app_assoc; reflexivity|].
     assert (Hb2 : s_dup s1 <= s_dup s') by (destruct X' as (_ & B & _); exact B).
@@ -1116,14 +1158,14 @@ Proof. intros (h' & Hb & R). exists h'. split; [apply below_step; exact Hb|exact
 Lemma explicit_member t genes p lins id og body :
   WFh t genes (XH p lins) -> Forall (Forall (Pmember t genes)) lins ->
   sp_body t (single lins) p lins body -> label_ok t lins body ->
-  forall pg fr s, dups_dom s ->
+  forall pg fr s, dups_dom s -> NoDup (flat_map refs_of body) -> lfresh s (flat_map refs_of body) ->
   exists x s', eval_item t genes (IOG id og body) pg fr s = Ok (add_kids fr [(pg, x)], s') /\
     matches (XH p lins) x /\ htax x = p /\ wf_node t x = true /\ ext s s' /\ dups_dom s'.
 Proof.
-  intros Hwf HIH Hsp Hlab pg fr s Hdom.
+  intros Hwf HIH Hsp Hlab pg fr s Hdom Hnd Hfr.
   pose proof (lin_ok_of_WF t genes p lins Hwf) as Hok.
   destruct (body_eval t genes p (single lins) lins body Hsp HIH Hok [] empty_frame s eq_refl) as
-    (gs & inner & s1 & E1 & K1 & P1 & X1 & D1 & F1 & G1 & N1 & Ex1); [intros k []|exact Hdom|].
+    (gs & inner & s1 & E1 & K1 & P1 & X1 & D1 & F1 & G1 & N1 & Ex1); [intros k []|exact Hdom|exact Hnd|exact Hfr|].
   simpl in K1.
   assert (Hlab' : match assoc_last "TaxRange" (f_props inner) with
                   | None => True
@@ -1158,12 +1200,22 @@ Proof.
   destruct (close_og t false id og inner s1) as [[[ks|h] s2]|e]; reflexivity.
 Qed.
 
-Lemma wrap_inner t genes g p n s : find_gene g genes = Some p ->
-  body_go t genes None [IProp "TaxRange" n; IGene g None] empty_frame s =
-  Ok ({| f_kids := [(None, HGene g p)]; f_props := [("TaxRange", n)]; f_scores := [] |}, s).
+Lemma gene_eval t genes g p loft pg fr s : find_gene g genes = Some p -> lfresh s [g] ->
+  exists s', eval_item t genes (IGene g loft) pg fr s = Ok (add_kids fr [(pg, HGene g p)], s') /\
+    s_oid s' = s_oid s /\ s_dup s' = s_dup s /\ s_dups s' = s_dups s.
 Proof.
-  intros H. rewrite body_go_cons. cbn [eval_item]. unfold ret at 1. cbv beta iota.
-  rewrite body_go_cons. cbn [eval_item]. rewrite find_gene_fix, H. reflexivity.
+  intros Hf Hfr. destruct (loft_step g loft s Hfr) as (s' & E & R). exists s'. split; [|exact R].
+  cbn [eval_item]. rewrite find_gene_fix, Hf. unfold bind at 1. rewrite E. reflexivity.
+Qed.
+
+Lemma wrap_inner t genes g p n loft s : find_gene g genes = Some p -> lfresh s [g] ->
+  exists s', body_go t genes None [IProp "TaxRange" n; IGene g loft] empty_frame s =
+    Ok ({| f_kids := [(None, HGene g p)]; f_props := [("TaxRange", n)]; f_scores := [] |}, s') /\
+    s_oid s' = s_oid s /\ s_dup s' = s_dup s /\ s_dups s' = s_dups s.
+Proof.
+  intros H Hfr. rewrite body_go_cons. cbn [eval_item]. unfold ret at 1. cbv beta iota.
+  destruct (gene_eval t genes g p loft None {| f_kids := f_kids empty_frame; f_props := f_props empty_frame ++ [("TaxRange", n)]; f_scores := f_scores empty_frame |} s H Hfr)
+    as (s' & E & R). exists s'. split; [|exact R]. rewrite body_go_cons, E. reflexivity.
 Qed.
 
 Lemma wrap_close t id og g p n s : name_of t p = Some n ->
@@ -1175,22 +1227,30 @@ Proof.
   rewrite Ea, Hn, String.eqb_refl. reflexivity.
 Qed.
 
+Lemma ext_same_counters s s' : s_oid s' = s_oid s -> s_dup s' = s_dup s -> s_dups s' = s_dups s -> ext s s' /\ (dups_dom s -> dups_dom s').
+Proof. intros Ho Hd Hds. apply same_dups_ext; [lia|exact Hd|exact Hds]. Qed.
+
 Theorem spelt_evaluates t genes h : Pmember t genes h.
 Proof.
   induction h as [g p|p lins IH] using hist_ind'; intros Hwf mp its lv Hsp.
   - destruct Hwf as [Hf Hl].
-    inversion Hsp as [mp' g' p'|mp' g' p' n id og Hn| | |]; subst; cbn [member_claim]; intros pg fr s Hdom.
-    + exists (HGene g p), (add_kids fr [(pg, HGene g p)]), s. split; [|split; [reflexivity|split; [|split; [reflexivity|split; [apply ext_refl|exact Hdom]]]]].
-      * rewrite body_go_cons. cbn [eval_item]. rewrite find_gene_fix, Hf. reflexivity.
-      * exists (XG g p). split; [constructor|]. split; [simpl; auto|]. split; [reflexivity|exact Hl].
-    + exists (HGene g p), (add_kids fr [(pg, HGene g p)]), s. split; [|split; [reflexivity|split; [|split; [reflexivity|split; [apply ext_refl|exact Hdom]]]]].
-      * rewrite body_go_cons, eval_IOG, (wrap_inner t genes g p n s Hf), (wrap_close t id og g p n s Hn).
-        destruct pg; reflexivity.
+    inversion Hsp as [mp' g' p' loft|mp' g' p' n id og loft Hn| | |]; subst; cbn [member_claim]; intros pg fr s Hdom Hnd Hfr.
+    + cbn [flat_map refs_of app] in Hfr.
+      destruct (gene_eval t genes g p loft pg fr s Hf Hfr) as (s' & E & O & D & DS).
+      destruct (ext_same_counters s s' O D DS) as [Hext Hdd].
+      exists (HGene g p), (add_kids fr [(pg, HGene g p)]), s'. split; [rewrite body_go_cons, E; reflexivity|].
+      split; [reflexivity|]. split; [exists (XG g p); split; [constructor|]; split; [simpl; auto|]; split; [reflexivity|exact Hl]|].
+      split; [reflexivity|]. split; [exact Hext|apply Hdd; exact Hdom].
+    + cbn [flat_map refs_of app] in Hfr.
+      destruct (wrap_inner t genes g p n loft s Hf Hfr) as (s' & E & O & D & DS).
+      destruct (ext_same_counters s s' O D DS) as [Hext Hdd].
+      exists (HGene g p), (add_kids fr [(pg, HGene g p)]), s'. split; [|split; [reflexivity|split; [|split; [reflexivity|split; [exact Hext|apply Hdd; exact Hdom]]]]].
+      * rewrite body_go_cons, eval_IOG, E, (wrap_close t id og g p n s' Hn). destruct pg; reflexivity.
       * exists (XG g p). split; [constructor|]. split; [simpl; auto|]. split; [reflexivity|exact Hl].
   - inversion Hsp as [| |mp' p' lins' id og body Hbody Hlab|mp' p' c its' lv' Hc|p' cs og body lvls H2 Hun Hlv]; subst.
     + (* spelt out *)
-      cbn [member_claim]. intros pg fr s Hdom.
-      destruct (explicit_member t genes p lins id og body Hwf IH Hbody Hlab pg fr s Hdom) as (x & s' & E & M & T & W & X' & D').
+      cbn [member_claim]. intros pg fr s Hdom Hnd Hfr. cbn [flat_map refs_of] in Hnd, Hfr. rewrite app_nil_r in Hnd, Hfr.
+      destruct (explicit_member t genes p lins id og body Hwf IH Hbody Hlab pg fr s Hdom Hnd Hfr) as (x & s' & E & M & T & W & X' & D').
       exists x, (add_kids fr [(pg, x)]), s'. split; [rewrite body_go_cons, E; reflexivity|]. split; [reflexivity|].
       split; [exists (XH p lins); split; [constructor|]; split; [exact M|]; split; [exact T|exact W]|].
       split; [exact T|]. split; [exact X'|exact D'].
@@ -1198,12 +1258,12 @@ Proof.
       inversion IH as [|? ? IHl _]; subst. inversion IHl as [|? ? IHc _]; subst.
       destruct (WFh_member_tax t genes p [[c]] [c] c Hwf (or_introl eq_refl) (or_introl eq_refl)) as (Hwc & _).
       pose proof (IHc Hwc mp its lv Hc) as Hclaim. destruct lv as [l|]; cbn [member_claim] in *.
-      * intros pg fr s Hdom. destruct (Hclaim pg fr s Hdom) as (y & fr' & s' & E & K & R & L & X' & D').
+      * intros pg fr s Hdom Hnd Hfr. destruct (Hclaim pg fr s Hdom Hnd Hfr) as (y & fr' & s' & E & K & R & L & X' & D').
         exists y, fr', s'. split; [exact E|]. split; [exact K|]. split; [apply rep_step; exact R|]. auto.
-      * intros fr s Hdom Hfl. destruct (Hclaim fr s Hdom Hfl) as (ys & a & cs & fr' & s' & E & K & B & R).
+      * intros fr s Hdom Hfl Hnd Hfr. destruct (Hclaim fr s Hdom Hfl Hnd Hfr) as (ys & a & cs & fr' & s' & E & K & B & R).
         exists ys, a, cs, fr', s'. split; [exact E|]. split; [exact K|]. split; [apply below_step; exact B|exact R].
     + (* a level that consists of one duplication, spelt as that duplication *)
-      cbn [member_claim]. intros fr s Hdom Hfl.
+      cbn [member_claim]. intros fr s Hdom Hfl Hnd Hfr. cbn [flat_map refs_of] in Hnd, Hfr. rewrite app_nil_r in Hnd, Hfr.
       pose proof (lin_ok_of_WF t genes p [cs] Hwf) as Hok. inversion Hok as [|? ? [Hne Hokc] _]; subst.
       inversion IH as [|? ? IHl _]; subst.
       assert (HX : exists b, lin_tax cs = b :: p).
@@ -1213,7 +1273,7 @@ Proof.
       { rewrite Forall_forall in *. intros c Hc its l Hm. destruct (Hokc c Hc) as (Hw & _). apply (IHl c Hc Hw false its (Some l) Hm). }
       assert (Hwfx : Forall (fun c => WFh t genes c /\ xtax c = lin_tax cs) cs).
       { rewrite Forall_forall in *. intros c Hc. destruct (Hokc c Hc) as (Hw & b' & Hx & Hl). split; [exact Hw|congruence]. }
-      destruct (nest_eval t genes (lin_tax cs) b p cs body lvls og Hun Hlv Hne Hcopy Hwfx HX fr s Hdom Hfl)
+      destruct (nest_eval t genes (lin_tax cs) b p cs body lvls og Hun Hlv Hne Hcopy Hwfx HX fr s Hdom Hfl Hnd Hfr)
         as (ys & fr1 & s1 & E1 & K1 & R1 & Lv1 & M1 & Lt1 & X1 & D1).
       exists ys, p, cs, fr1, s1. split; [rewrite body_go_cons, E1; reflexivity|]. split; [exact K1|].
       split; [constructor|]. split; [exact H2|]. split; [exact R1|]. split; [rewrite Lv1; exact Hlv|]. auto.
@@ -1221,16 +1281,16 @@ Qed.
 
 (* a top-level orthologGroup *)
 Theorem spelt_top_evaluates t genes h it s :
-  WFh t genes h -> spells_top t h it -> dups_dom s ->
+  WFh t genes h -> spells_top t h it -> dups_dom s -> NoDup (refs_of it) -> lfresh s (refs_of it) ->
   exists i x s', eval_top t genes it s = Ok ((i, x), s') /\
     matches h x /\ htax x = xtax h /\ wf_node t x = true /\ ext s s' /\ dups_dom s'.
 Proof.
-  intros Hwf (p & lins & id & og & body & -> & -> & Hbody & Hlab) Hdom.
+  intros Hwf (p & lins & id & og & body & -> & -> & Hbody & Hlab) Hdom Hnd Hfr. cbn [refs_of] in Hnd, Hfr.
   assert (HIH : Forall (Forall (Pmember t genes)) lins).
   { apply Forall_forall. intros l _. apply Forall_forall. intros c _. apply spelt_evaluates. }
   pose proof (lin_ok_of_WF t genes p lins Hwf) as Hok.
   destruct (body_eval t genes p (single lins) lins body Hbody HIH Hok [] empty_frame s eq_refl) as
-    (gs & inner & s1 & E1 & K1 & P1 & X1 & D1 & F1 & G1 & N1 & Ex1); [intros k []|exact Hdom|].
+    (gs & inner & s1 & E1 & K1 & P1 & X1 & D1 & F1 & G1 & N1 & Ex1); [intros k []|exact Hdom|exact Hnd|exact Hfr|].
   simpl in K1.
   assert (Hlab' : match assoc_last "TaxRange" (f_props inner) with
                   | None => True
@@ -1248,34 +1308,39 @@ Qed.
 (* ---------- whole documents ---------- *)
 Lemma spelt_tops_evaluate t genes hs : forall items s,
   Forall (WFh t genes) hs -> Forall2 (spells_top t) hs items -> dups_dom s ->
+  NoDup (flat_map refs_of items) -> lfresh s (flat_map refs_of items) ->
   exists tops s', mapM (eval_top t genes) items s = Ok (tops, s') /\
     Forall2 (fun h top => matches h (snd top) /\ htax (snd top) = xtax h /\ wf_node t (snd top) = true) hs tops /\ dups_dom s'.
 Proof.
-  induction hs as [|h r IH]; intros items s Hwf Hsp Hdom; inversion Hsp as [|? it ? itr Hh Hr]; subst.
+  induction hs as [|h r IH]; intros items s Hwf Hsp Hdom Hnd Hfr; inversion Hsp as [|? it ? itr Hh Hr]; subst.
   - exists [], s. simpl. split; [reflexivity|]. split; [constructor|exact Hdom].
-  - inversion Hwf as [|? ? Hw Hwr]; subst.
-    destruct (spelt_top_evaluates t genes h it s Hw Hh Hdom) as (i & x & s1 & E1 & M1 & T1 & W1 & X1 & D1).
-    destruct (IH itr s1 Hwr Hr D1) as (tops & s2 & E2 & F2 & D2).
+  - inversion Hwf as [|? ? Hw Hwr]; subst. cbn [flat_map] in Hnd, Hfr. destruct (lfresh_app _ _ _ Hfr) as [Hfr1 Hfr2].
+    destruct (spelt_top_evaluates t genes h it s Hw Hh Hdom (nodup_app_l _ _ Hnd) Hfr1) as (i & x & s1 & E1 & M1 & T1 & W1 & X1 & D1).
+    assert (Hfr1' : lfresh s1 (flat_map refs_of itr)) by (eapply lfresh_step; [exact Hnd|exact Hfr|eapply eval_top_lgrow; eauto]).
+    destruct (IH itr s1 Hwr Hr D1 (nodup_app_r' _ _ Hnd) Hfr1') as (tops & s2 & E2 & F2 & D2).
     exists ((i, x) :: tops), s2. split; [|split; [constructor; auto|exact D2]].
     cbn [mapM]. unfold bind at 1. rewrite E1. unfold bind at 1. rewrite E2. reflexivity.
 Qed.
 
 Theorem spelt_load t d hs :
-  Forall (species_sane t) (d_species d) -> NoDup (declared d) -> Forall2 (spells_top t) hs (d_groups d) ->
+  Forall (species_sane t) (d_species d) -> NoDup (declared d) -> NoDup (flat_map refs_of (d_groups d)) ->
+  Forall2 (spells_top t) hs (d_groups d) ->
   (forall genes, map fst genes = declared d ->
      (forall g p, In (g, p) genes -> exists sp, In sp (d_species d) /\ In g (map gd_id (sp_genes sp)) /\ species_resolves t sp p) ->
      Forall (WFh t genes) hs) ->
   exists l, load t d = Ok l /\
     Forall2 (fun h top => matches h (snd top) /\ htax (snd top) = xtax h /\ wf_node t (snd top) = true) hs (l_tops l).
 Proof.
-  intros Hsp Hnd Hg Hwf.
+  intros Hsp Hnd Hrefs Hg Hwf.
   destruct (species_fold_ok t (d_species d) [] init_state Hsp Hnd) as (genes & s0 & E0 & D0 & DS0).
   pose proof (species_fold_spec t _ _ _ _ _ E0) as (I1 & _ & _ & I4). simpl in I1.
   assert (Hdom0 : dups_dom s0).
   { intros k. rewrite DS0, D0. simpl. split; [intros H; contradiction|intros H; inversion H]. }
   assert (HF : Forall (WFh t genes) hs).
   { apply Hwf; [exact I1|]. intros g p Hin. apply I4 in Hin as [[]|Hin]. exact Hin. }
-  destruct (spelt_tops_evaluate t genes hs (d_groups d) s0 HF Hg Hdom0) as (tops & s1 & E1 & F1 & _).
+  assert (Hfr0 : lfresh s0 (flat_map refs_of (d_groups d))).
+  { intros g _. rewrite (species_lsame t _ _ _ _ _ E0). reflexivity. }
+  destruct (spelt_tops_evaluate t genes hs (d_groups d) s0 HF Hg Hdom0 Hrefs Hfr0) as (tops & s1 & E1 & F1 & _).
   exists {| l_genes := genes; l_tops := tops; l_state := s1 |}. split; [|exact F1].
   unfold load. unfold bind at 1. rewrite E0. unfold bind at 1. rewrite E1. reflexivity.
 Qed.
